@@ -621,6 +621,7 @@ func runC10(r *harness.Run) {
 	ob := c10RunObjPart(r)
 	c10EnvPart(r)
 	c10APIChain(r)
+	c10NextUnderRemoval(r)
 	pinnedGoAPI5(r, "C10")
 	r.Rule = st.rule + " || " + ca.rule + " || " + ob.rule
 	r.Extra["states"] = st.states
